@@ -186,11 +186,14 @@ func (r *gatewayController) buildCanaryHeaderHttpRoutes(rules []gatewayv1beta1.H
 		}
 		// reset pathMatches
 		pathMatches = nil
-		if len(nonPathMatches) == 0 && len(newMatches) == 0 {
-			continue
+		// a rule without matches accepts every request: combine the canary conditions with one empty match,
+		// otherwise the canary rule would be left without matches and accept every request, too
+		ruleMatches := canaryRule.Matches
+		if len(ruleMatches) == 0 {
+			ruleMatches = []gatewayv1beta1.HTTPRouteMatch{{}}
 		}
-		for j := range canaryRule.Matches {
-			canaryRuleMatch := &canaryRule.Matches[j]
+		for j := range ruleMatches {
+			canaryRuleMatch := &ruleMatches[j]
 			for k := range nonPathMatches {
 				canaryRuleMatchBase := *canaryRuleMatch
 				if len(nonPathMatches[k].Headers) > 0 {
@@ -201,6 +204,9 @@ func (r *gatewayController) buildCanaryHeaderHttpRoutes(rules []gatewayv1beta1.H
 				}
 				newMatches = append(newMatches, canaryRuleMatchBase)
 			}
+		}
+		if len(newMatches) == 0 {
+			continue
 		}
 		canaryRule.Matches = newMatches
 		canaries = append(canaries, *canaryRule)
